@@ -30,18 +30,29 @@ package cpusuppress
 //                  anPolicy 0 unset, 1 Default, 2 ReservedCPUsOnly, 3 another string; resMicro = resources.cpu in
 //                  micro-CPU; cpusStyle 0..4 legal spellings of reservedCPUs, 5 not a cpu list.
 //                  pertKind 5: applyPolicy becomes pertIdx; 6: allocatable shrinks by pertDelta.
+//  kind 7 rounds : whole suppressBECPU rounds on ONE CPUSuppress instance, driven the way the plugin's Run loop drives
+//                  them: node / pods / NodeSLO / topology from a states informer, usage from a REAL metric cache (TSDB
+//                  in a temp dir, samples appended per round), cgroup files under a temp root.
+//                  7 <node as in kind 6> thr hasMin minPct static sysKind S sys*S  K0 old*K0 initQuota  NP procs
+//                  P (lab kubeBE hasMetric k cpus*k)*P  H (qos base hasMetric)*H
+//                  N ops: 1 mode fail nodeU use*P use*H (mode 0 cpuset, 1 cfsQuota, 2 NodeSLO disables the feature;
+//                  fail: the metric cache refuses queries) | 2 value (somebody else rewrites cpu.cfs_quota_us)
+//                  obs after every step: cpuset.cpus of besteffort / pod / container dir as [len ids..], cpu.cfs_quota_us
 //  (kind 1: the hundreds digit of annoKind is the applyPolicy; kind 3: the hundreds digit of resKind is the applyPolicy.)
 
 import (
+	"errors"
 	"flag"
 	"fmt"
 	"io"
 	"math/rand"
+	"os"
 	"path/filepath"
 	"sort"
 	"strconv"
 	"strings"
 	"testing"
+	"time"
 
 	topov1alpha1 "github.com/k8stopologyawareschedwg/noderesourcetopology-api/pkg/apis/topology/v1alpha1"
 	corev1 "k8s.io/api/core/v1"
@@ -67,10 +78,27 @@ type vtC10SI struct {
 	statesinformer.StatesInformer
 	pods []*statesinformer.PodMeta
 	topo *topov1alpha1.NodeResourceTopology
+	node *corev1.Node
+	slo  *slov1alpha1.NodeSLO
+}
+
+// vtC10RealMC is the real metric cache with a switch that makes it refuse queries.
+type vtC10RealMC struct {
+	metriccache.MetricCache
+	fail bool
+}
+
+func (m *vtC10RealMC) Querier(start, end time.Time) (metriccache.Querier, error) {
+	if m.fail {
+		return nil, errors.New("metric cache unavailable")
+	}
+	return m.MetricCache.Querier(start, end)
 }
 
 func (s *vtC10SI) GetAllPods() []*statesinformer.PodMeta           { return s.pods }
 func (s *vtC10SI) GetNodeTopo() *topov1alpha1.NodeResourceTopology { return s.topo }
+func (s *vtC10SI) GetNode() *corev1.Node                           { return s.node }
+func (s *vtC10SI) GetNodeSLO() *slov1alpha1.NodeSLO                { return s.slo }
 
 type vtC10MC struct {
 	metriccache.MetricCache
@@ -268,15 +296,11 @@ func vtC10Budget(d *vtC10Rd) []int64 {
 	return vtC10BudgetRun(d, sp)
 }
 
-func vtC10Budget6(d *vtC10Rd) []int64 {
-	sp := &vtC10NodeSpec{}
-	sp.capM = d.next()
-	sp.hasAlloc = d.next() != 0
-	sp.allocM = d.next()
+// vtC10ReadAnno reads "anState anPolicy hasRes resMicro cpusStyle K cpus*K" and returns a function that renders the
+// node's annotations for a given applyPolicy, the policy of the input, and the cpu list.
+func vtC10ReadAnno(d *vtC10Rd) (func(pol int64) map[string]string, int64) {
 	anState, anPolicy, hasRes, resMicro, cpusStyle := d.next(), d.next(), d.next(), d.next(), d.next()
 	cpus := d.list()
-	sp.thr, sp.hasMin, sp.minPct, sp.nodeU = d.next(), d.next(), d.next(), d.next()
-	sp.pertKind, sp.pertIdx, sp.pertDelta = d.next(), d.next(), d.next()
 	mk := func(pol int64) map[string]string {
 		flavour := anState / 10
 		switch anState % 10 {
@@ -313,6 +337,17 @@ func vtC10Budget6(d *vtC10Rd) []int64 {
 		}
 		return nil
 	}
+	return mk, anPolicy
+}
+
+func vtC10Budget6(d *vtC10Rd) []int64 {
+	sp := &vtC10NodeSpec{}
+	sp.capM = d.next()
+	sp.hasAlloc = d.next() != 0
+	sp.allocM = d.next()
+	mk, anPolicy := vtC10ReadAnno(d)
+	sp.thr, sp.hasMin, sp.minPct, sp.nodeU = d.next(), d.next(), d.next(), d.next()
+	sp.pertKind, sp.pertIdx, sp.pertDelta = d.next(), d.next(), d.next()
 	sp.annotations = mk(anPolicy)
 	sp.annotationsPert = mk(sp.pertIdx)
 	return vtC10BudgetRun(d, sp)
@@ -568,6 +603,207 @@ func vtC10History(d *vtC10Rd) []int64 {
 	return out
 }
 
+// ---------------------------------------------------------------- kind 7: whole rounds
+
+func vtC10Rounds(d *vtC10Rd) []int64 {
+	capM := d.next()
+	hasAlloc := d.next() != 0
+	allocM := d.next()
+	mkAnno, anPolicy := vtC10ReadAnno(d)
+	thr, hasMin, minPct, static := d.next(), d.next(), d.next(), d.next()
+	sysKind := d.next()
+	sys := d.list()
+	old := d.list()
+	initQuota := d.next()
+	procs := vtC10Procs(d)
+	type podRec struct {
+		hasMetric bool
+		uid       string
+	}
+	np := int(d.next())
+	var metas []*statesinformer.PodMeta
+	pods := []podRec{}
+	for i := 0; i < np; i++ {
+		lab, kubeBE, hasMetric := d.next(), d.next(), d.next()
+		cpus := d.list()
+		uid := fmt.Sprintf("p%02d", i)
+		pod := &corev1.Pod{
+			ObjectMeta: metav1.ObjectMeta{Namespace: "ns", Name: uid, UID: types.UID(uid), Labels: vtC10Lab(lab % 10)},
+			Spec:       corev1.PodSpec{Containers: []corev1.Container{{Name: "c"}}},
+		}
+		if kubeBE == 0 {
+			pod.Spec.Containers[0].Resources.Requests = corev1.ResourceList{corev1.ResourceCPU: resource.MustParse("100m")}
+		}
+		if len(cpus) > 0 {
+			pod.Annotations = map[string]string{apiext.AnnotationResourceStatus: fmt.Sprintf(`{"cpuset":"%s"}`, vtC10SetStrStyle(cpus, lab/10))}
+		}
+		metas = append(metas, &statesinformer.PodMeta{Pod: pod})
+		pods = append(pods, podRec{hasMetric != 0, uid})
+	}
+	type hostRec struct {
+		hasMetric bool
+		name      string
+	}
+	nh := int(d.next())
+	var apps []slov1alpha1.HostApplicationSpec
+	hosts := []hostRec{}
+	for i := 0; i < nh; i++ {
+		qos, base, hasMetric := d.next(), d.next(), d.next()
+		name := fmt.Sprintf("h%02d", i)
+		app := slov1alpha1.HostApplicationSpec{Name: name}
+		if qos > 0 && int(qos) < len(vtC10QoS) {
+			app.QoS = apiext.QoSClass(vtC10QoS[qos])
+		}
+		switch base {
+		case 1:
+			app.CgroupPath = &slov1alpha1.CgroupPath{Base: slov1alpha1.CgroupBaseTypeKubeBesteffort}
+		case 2:
+			app.CgroupPath = &slov1alpha1.CgroupPath{Base: slov1alpha1.CgroupBaseTypeKubepods}
+		}
+		apps = append(apps, app)
+		hosts = append(hosts, hostRec{hasMetric != 0, name})
+	}
+
+	// the node object and the topology object carry the same reservation annotation
+	node := &corev1.Node{
+		ObjectMeta: metav1.ObjectMeta{Name: "n0", Annotations: mkAnno(anPolicy)},
+		Status: corev1.NodeStatus{
+			Capacity:    corev1.ResourceList{corev1.ResourceCPU: *resource.NewMilliQuantity(capM, resource.DecimalSI)},
+			Allocatable: corev1.ResourceList{corev1.ResourceMemory: resource.MustParse("8Gi")},
+		},
+	}
+	if hasAlloc {
+		node.Status.Allocatable[corev1.ResourceCPU] = *resource.NewMilliQuantity(allocM, resource.DecimalSI)
+	}
+	topoAnno := map[string]string{}
+	for k, v := range mkAnno(anPolicy) {
+		topoAnno[k] = v
+	}
+	sysStr := vtC10SetStrStyle(sys, sysKind/10)
+	switch sysKind % 10 {
+	case 1:
+		topoAnno[apiext.AnnotationNodeSystemQOSResource] = fmt.Sprintf(`{"cpuset":"%s"}`, sysStr)
+	case 2:
+		topoAnno[apiext.AnnotationNodeSystemQOSResource] = fmt.Sprintf(`{"cpuset":"%s","cpusetExclusive":true}`, sysStr)
+	case 3:
+		topoAnno[apiext.AnnotationNodeSystemQOSResource] = fmt.Sprintf(`{"cpuset":"%s","cpusetExclusive":false}`, sysStr)
+	}
+	if static != 0 {
+		topoAnno[apiext.AnnotationKubeletCPUManagerPolicy] = `{"policy":"static"}`
+	}
+	topo := &topov1alpha1.NodeResourceTopology{ObjectMeta: metav1.ObjectMeta{Name: "n0", Annotations: topoAnno}}
+	info := &metriccache.NodeCPUInfo{ProcessorInfos: procs}
+
+	helper := system.NewFileTestUtil(vtC10T)
+	defer helper.Cleanup()
+	oldStr := vtC10SetStr(old)
+	beDir := koordletutil.GetPodQoSRelativePath(corev1.PodQOSBestEffort)
+	podDir := filepath.Join(beDir, "pod1")
+	ctrDir := filepath.Join(beDir, "pod1", "ctr1")
+	dirs := []string{beDir, podDir, ctrDir}
+	for _, dir := range dirs {
+		helper.WriteCgroupFileContents(dir, system.CPUSet, oldStr)
+	}
+	helper.WriteCgroupFileContents(beDir, system.CPUCFSQuota, strconv.FormatInt(initQuota, 10))
+
+	// a real metric cache (TSDB) in its own directory
+	tsdbDir, err := os.MkdirTemp("", "vtc10-tsdb-")
+	if err != nil {
+		return []int64{-888001}
+	}
+	defer os.RemoveAll(tsdbDir)
+	mcCfg := metriccache.NewDefaultConfig()
+	mcCfg.TSDBPath = tsdbDir
+	mcCfg.TSDBEnablePromMetrics = false
+	realMC, err := metriccache.NewMetricCache(mcCfg)
+	if err != nil {
+		return []int64{-888002}
+	}
+	defer realMC.Close()
+	realMC.Set(metriccache.NodeCPUInfoKey, info)
+	mc := &vtC10RealMC{MetricCache: realMC}
+
+	si := &vtC10SI{pods: metas, topo: topo, node: node}
+	maCfg := maframework.NewDefaultConfig()
+	maCfg.CollectResUsedInterval = time.Hour // the "last" window is twice this: the samples below never fall out of it
+	r := newTestCPUSuppress(&framework.Options{StatesInformer: si, MetricCache: mc, Config: framework.NewDefaultConfig(), MetricAdvisorConfig: maCfg})
+	stop := make(chan struct{})
+	r.init(stop)
+	defer close(stop)
+
+	var minP *int64
+	if hasMin != 0 {
+		m := minPct
+		minP = &m
+	}
+	base := time.Now().Add(-time.Minute)
+	out := []int64{}
+	n := int(d.next())
+	for step := 0; step < n; step++ {
+		op := d.next()
+		if op == 1 {
+			mode, fail, nodeU := d.next(), d.next(), d.next()
+			ts := base.Add(time.Duration(step+1) * time.Millisecond)
+			samples := []metriccache.MetricSample{}
+			if smp, err := metriccache.NodeCPUUsageMetric.GenerateSample(nil, ts, float64(nodeU)/64); err == nil {
+				samples = append(samples, smp)
+			}
+			for _, p := range pods {
+				u := d.next()
+				if p.hasMetric {
+					if smp, err := metriccache.PodCPUUsageMetric.GenerateSample(metriccache.MetricPropertiesFunc.Pod(p.uid), ts, float64(u)/64); err == nil {
+						samples = append(samples, smp)
+					}
+				}
+			}
+			for _, h := range hosts {
+				u := d.next()
+				if h.hasMetric {
+					if smp, err := metriccache.HostAppCPUUsageMetric.GenerateSample(metriccache.MetricPropertiesFunc.HostApplication(h.name), ts, float64(u)/64); err == nil {
+						samples = append(samples, smp)
+					}
+				}
+			}
+			app := realMC.Appender()
+			if err := app.Append(samples); err != nil {
+				return []int64{-888003}
+			}
+			if err := app.Commit(); err != nil {
+				return []int64{-888004}
+			}
+			enable := mode != 2
+			policy := slov1alpha1.CPUSetPolicy
+			if mode == 1 {
+				policy = slov1alpha1.CPUCfsQuotaPolicy
+			}
+			t := thr
+			si.slo = &slov1alpha1.NodeSLO{Spec: slov1alpha1.NodeSLOSpec{
+				ResourceUsedThresholdWithBE: &slov1alpha1.ResourceThresholdStrategy{
+					Enable:                      &enable,
+					CPUSuppressThresholdPercent: &t,
+					CPUSuppressMinPercent:       minP,
+					CPUSuppressPolicy:           policy,
+				},
+				HostApplications: apps,
+			}}
+			mc.fail = fail != 0
+			r.suppressBECPU()
+		} else {
+			v := d.next()
+			helper.WriteCgroupFileContents(beDir, system.CPUCFSQuota, strconv.FormatInt(v, 10))
+		}
+		for _, dir := range dirs {
+			out = append(out, vtC10ParseFile(helper.ReadCgroupFileContents(dir, system.CPUSet))...)
+		}
+		q, err := strconv.ParseInt(strings.TrimSpace(helper.ReadCgroupFileContents(beDir, system.CPUCFSQuota)), 10, 64)
+		if err != nil {
+			q = -999999
+		}
+		out = append(out, q)
+	}
+	return out
+}
+
 func vtC10Exec(in []int64) []int64 {
 	d := &vtC10Rd{in: in}
 	switch d.next() {
@@ -583,6 +819,8 @@ func vtC10Exec(in []int64) []int64 {
 		return vtC10History(d)
 	case 6:
 		return vtC10Budget6(d)
+	case 7:
+		return vtC10Rounds(d)
 	}
 	return []int64{-1}
 }
@@ -1071,6 +1309,209 @@ func vtC10GenHistory(r *rand.Rand) (string, []int64) {
 	return "quota-history", in
 }
 
+// vtC10GenRounds draws a node (topology, reservation annotation, system-QoS cpuset, kubelet policy), a pod set with
+// QoS classes and cpuset annotations, host applications, and a history of up to six whole rounds on one plugin
+// instance: cpuset-policy, cfsQuota-policy and disabled rounds in any order, rounds during which the metric cache
+// refuses queries, external rewrites of the quota file.  Degenerate styles: every cpu protected, no pods.
+func vtC10GenRounds(r *rand.Rand) (string, []int64) {
+	label := "rounds"
+	ps := vtC10Topo(r)
+	ids := []int64{}
+	for _, p := range ps {
+		ids = append(ids, p.cpu)
+	}
+	n := len(ids)
+	capM := int64(n) * 1000
+	if n == 0 || r.Intn(6) == 0 {
+		capM = []int64{2000, 4000, 8000, 16000, 3500}[r.Intn(5)]
+	}
+	kubeRes := []int64{0, 0, 500, 1000, int64(r.Intn(2000))}[r.Intn(5)]
+	if kubeRes > capM {
+		kubeRes = capM
+	}
+	hasAlloc := vtB(r.Intn(12) != 0)
+	free := append([]int64{}, ids...)
+	take := func(k int) []int64 {
+		if k > len(free) {
+			k = len(free)
+		}
+		perm := r.Perm(len(free))
+		got := []int64{}
+		rest := []int64{}
+		for j, i := range perm {
+			if j < k {
+				got = append(got, free[i])
+			} else {
+				rest = append(rest, free[i])
+			}
+		}
+		free = rest
+		return got
+	}
+	sty := func() int64 {
+		if r.Intn(5) < 3 {
+			return 0
+		}
+		return int64(1 + r.Intn(4))
+	}
+	// reservation annotation
+	var anState int64
+	switch r.Intn(8) {
+	case 0:
+		anState = 0
+	case 1:
+		anState = 1 + 10*int64(r.Intn(2))
+	case 2:
+		anState = 2 + 10*int64(r.Intn(5))
+	default:
+		anState = 3 + 10*int64(r.Intn(2))
+	}
+	anPolicy := int64(r.Intn(4))
+	if r.Intn(3) == 0 {
+		anPolicy = 2
+	}
+	hasRes := vtB(r.Intn(3) == 0)
+	resMicro := []int64{0, 500000, 1000000, 2000000, 1500500, int64(r.Intn(4000)) * 1000}[r.Intn(6)]
+	resCPUs := []int64{}
+	if r.Intn(2) == 0 {
+		resCPUs = take(1 + r.Intn(3))
+		if r.Intn(6) == 0 {
+			resCPUs = append(resCPUs, int64(40+r.Intn(3))) // a reserved id that is not a cpu of this node
+		}
+	}
+	cpusStyle := sty()
+	if len(resCPUs) > 0 && r.Intn(12) == 0 {
+		cpusStyle = 5
+	}
+	// pods
+	np := r.Intn(5)
+	if r.Intn(10) == 0 {
+		np = 0
+		label = "rounds-nopods"
+	}
+	pods := []int64{int64(np)}
+	podHasMetric := []bool{}
+	for i := 0; i < np; i++ {
+		lab := int64(r.Intn(6))
+		if r.Intn(2) == 0 {
+			lab = int64(1 + r.Intn(2))
+		}
+		hm := r.Intn(8) != 0
+		podHasMetric = append(podHasMetric, hm)
+		pods = append(pods, lab+10*sty(), vtB(r.Intn(3) == 0), vtB(hm))
+		pods = append(pods, vtC10EncList(take(r.Intn(4)))...)
+	}
+	nh := r.Intn(3)
+	hosts := []int64{int64(nh)}
+	hostHasMetric := []bool{}
+	for i := 0; i < nh; i++ {
+		qos := int64(r.Intn(6))
+		if r.Intn(2) == 0 {
+			qos = 4
+		}
+		hm := r.Intn(6) != 0
+		hostHasMetric = append(hostHasMetric, hm)
+		hosts = append(hosts, qos, int64(r.Intn(3)), vtB(hm))
+	}
+	sysKind := int64(r.Intn(4))
+	sys := []int64{}
+	if sysKind != 0 {
+		sys = take(r.Intn(3))
+	}
+	if r.Intn(10) == 0 && n > 0 {
+		label = "rounds-allprotected"
+		if r.Intn(2) == 0 || np == 0 {
+			sysKind = int64(1 + r.Intn(2))
+			sys = append(sys, free...)
+		} else {
+			// the first pod becomes an LSE pod owning every remaining cpu
+			j := 1
+			pods[j] = 1 + 10*(pods[j]/10)
+			k := int(pods[j+3])
+			rest := append([]int64{}, pods[j+4+k:]...)
+			own := append(append([]int64{}, pods[j+4:j+4+k]...), free...)
+			pods = append(pods[:j+3], vtC10EncList(own)...)
+			pods = append(pods, rest...)
+		}
+		free = nil
+	}
+	if sysKind != 0 {
+		sysKind += 10 * sty()
+	}
+	thr := []int64{50, 65, 70, 100, int64(r.Intn(121))}[r.Intn(5)]
+	hasMin := int64(r.Intn(2))
+	minPct := []int64{0, 5, 10, 25, int64(r.Intn(60))}[r.Intn(5)]
+	static := vtB(r.Intn(4) == 0)
+	var old []int64
+	switch r.Intn(5) {
+	case 0:
+		old = vtC10Subset(r, ids, 1)
+	case 1:
+		old = append([]int64{}, ids...)
+	default:
+		old = vtC10Subset(r, ids, 1+r.Intn(n+1))
+	}
+	if len(old) == 0 && r.Intn(3) != 0 {
+		old = []int64{int64(r.Intn(4))}
+	}
+	initQuota := int64(-1)
+	if r.Intn(3) == 0 {
+		initQuota = r.Int63n(capM*100 + 1)
+	}
+	in := []int64{7, capM, hasAlloc, capM - kubeRes, anState, anPolicy, hasRes, resMicro, cpusStyle}
+	in = append(in, vtC10EncList(resCPUs)...)
+	in = append(in, thr, hasMin, minPct, static, sysKind)
+	in = append(in, vtC10EncList(sys)...)
+	in = append(in, vtC10EncList(old)...)
+	in = append(in, initQuota)
+	in = append(in, vtC10EncProcs(ps)...)
+	in = append(in, pods...)
+	in = append(in, hosts...)
+	capU := capM * 64 / 1000
+	nops := 2 + r.Intn(5)
+	in = append(in, int64(nops))
+	for k := 0; k < nops; k++ {
+		if r.Intn(8) == 0 {
+			v := int64(-1)
+			if r.Intn(2) == 0 {
+				v = r.Int63n(capM*100 + 1)
+			}
+			in = append(in, 2, v)
+			continue
+		}
+		mode := []int64{0, 0, 0, 1, 1, 2}[r.Intn(6)]
+		fail := vtB(r.Intn(10) == 0)
+		var sum int64
+		uses := []int64{}
+		for i := 0; i < np+nh; i++ {
+			var u int64
+			switch r.Intn(4) {
+			case 0:
+				u = int64(r.Intn(8))
+			default:
+				u = r.Int63n(capU/3 + 1)
+			}
+			counted := false
+			if i < np {
+				counted = podHasMetric[i]
+			} else {
+				counted = hostHasMetric[i-np]
+			}
+			if counted {
+				sum += u
+			}
+			uses = append(uses, u)
+		}
+		nodeU := sum + r.Int63n(capU/4+1)
+		if r.Intn(8) == 0 {
+			nodeU = sum - r.Int63n(sum+1)
+		}
+		in = append(in, 1, mode, fail, nodeU)
+		in = append(in, uses...)
+	}
+	return label, in
+}
+
 func vtC10Gen(r *rand.Rand, i int) (string, []int64) {
 	switch i % 10 {
 	case 0:
@@ -1080,8 +1521,10 @@ func vtC10Gen(r *rand.Rand, i int) (string, []int64) {
 		return vtC10GenBudget6(r)
 	case 1:
 		return vtC10GenBudget6(r)
-	case 2, 3, 4:
+	case 2, 3:
 		return vtC10GenPick(r)
+	case 4, 9:
+		return vtC10GenRounds(r)
 	case 5, 6:
 		return vtC10GenCPUSet(r)
 	case 7:
